@@ -31,8 +31,9 @@ def make_replay(pid, o, f, r, repo, scratch):
             cp = kani_unit.concrete_playback(f['group'], f['harness'], repo, scratch)
             doc['counterexample'] = cp
             kind = f.get('kind', '')
-            if cp.get('tests') and not cp.get('reproduced') and 'unwind' not in kind and 'unwind' not in (f.get('message') or ''):
-                spurious = True
+            if any(t.get('native_run') == 'passed' for t in cp.get('tests', [])) and not cp.get('reproduced') \
+                    and 'unwind' not in kind and 'unwind' not in (f.get('message') or ''):
+                spurious = True     # the generated test RAN natively and the harness's assertion held
             if cp.get('reproduced'):
                 found = True
                 doc['failing_input'] = dict(kind='kani concrete playback, executed natively against the crate built from /repo',
